@@ -36,9 +36,9 @@ func init() {
 				Name: "random",
 				N: func(t string) uint64 {
 					if t == "thorough" {
-						return 100_000_000
+						return 1_000_000_000
 					}
-					return 1_500_000
+					return 6_000_000
 				},
 				Run:  c12Random,
 				Rule: "log-uniform sizes over ten decades, origins anywhere, alignments {0,.5,1} or uniform; 1/5 square boxes, 1/7 equal aspect, 1/11 aspect equal up to 1 ulp",
